@@ -3,7 +3,7 @@ import lm
 import rules
 from lm import S, strip, cval, walk
 from props.common import Ctx, has, fmt_facts
-from props.containers import is_free_call, dtor_discipline
+from props.containers import is_free_call, dtor_discipline, itr_removed_guards
 
 LEVEL = "other"
 M = "Lib/structs/map.c"
@@ -109,6 +109,9 @@ def run(ck, P):
                    % ("set" if assumed.get("m->dtor") else "never consulted"), path)
         if assumed.get("m->dtor") is False and dts:
             bad = ("destructor called although none is set", path)
+        if dts and assumed.get("(entry->data == value)") is not False:
+            bad = ("the destructor runs on the stored value although the put may be storing that very same pointer again "
+                   "(no test that the new value differs): a live value is destroyed", path)
         if bad:
             break
     ck.ob("C05.2-DTOR-BEFORE-DROP", hp.site("update"), bad is None and n > 0,
@@ -269,6 +272,9 @@ def run(ck, P):
                 break
     ck.ob("C05.6-NO-UPDATE", hp.site("EPERM"), bad is None and n > 0, "%d refusing path(s) return -EPERM without effect" % n if bad is None else bad[0],
           path=rules.fmt_path(hp, bad[1]) if bad else None)
+
+    ck.rule("C05.7-ITR-REMOVED", "R-GUARD: map iterator remove/get/set refuse once the current entry was removed through the iterator", floor=4)
+    itr_removed_guards(ck, P, X, "C05.7-ITR-REMOVED", M, "m_map")
 
     ck.not_decided += ["correctness of probing/back-shift for colliding and wrapping clusters", "iteration visits every live entry exactly once",
                        "growth preserves all entries (depends on hash values)"]
